@@ -32,6 +32,7 @@ var registry = map[string]checkDef{
 	"C17": {"exploration", C17},
 	"C18": {"exploration", C18},
 	"C19": {"exploration", C19},
+	"C20": {"exploration", C20},
 }
 
 // Main runs one check and returns the process exit code.
